@@ -32,6 +32,15 @@ CHECKS = {
         design_ref="DESIGN.md §4 C03",
         note="DROP of an unwired table and tag/self-loop inheritance on RENAME are relational (either outcome accepted); facts come from the statement tap.",
     ),
+    "C10": dict(
+        technique="invariant monitor on the outcome of every execution over a hostile mutation workload + independent parse oracle + silent-mode differential monitor",
+        category="exploration",
+        text="Every accessor is touched on thousands of damaged, truncated, crossed-over, nested and metacharacter-laden inputs under all analyzers; the outcome "
+             "must be a result or a sqllineage exception; text that sqlfluff's own parser rejects must not return a result; an unsupported statement inserted "
+             "at every position of a silent-mode script must warn and leave the result unchanged.",
+        design_ref="DESIGN.md §4 C10",
+        note="sqlfluff's Linter.parse_string is trusted as the independent parse oracle (single-statement inputs only). The mutation workload is a deterministic function of (corpus, tier) plus a VERIF_SEED-driven slice.",
+    ),
     "C11": dict(
         technique="differential monitor across worker processes with different PYTHONHASHSEED + in-process repetition and accessor-order permutation",
         category="exploration",
